@@ -28,6 +28,51 @@ var c07Queries = []string{
 
 var faultKinds = []string{"transport", "gqlerrors", "gqlerrors+data", "node-null", "empty", "wrong-shape"}
 
+type joinSite struct {
+	svc, id string
+	path    []string
+}
+
+// joinSites lists, for every call of the fault-free run whose step has dependents, the relative path at which a
+// dependent joins the step's own payload.
+func joinSites(f *Fed, plans gateway.QueryPlanList) []joinSite {
+	var out []joinSite
+	if len(plans) == 0 {
+		return nil
+	}
+	var walk func(steps []*gateway.QueryPlanStep)
+	walk = func(steps []*gateway.QueryPlanStep) {
+		for _, s := range steps {
+			walk(s.Then)
+			url := StepURL(s)
+			if url == "GW" || url == "?" {
+				continue
+			}
+			for _, d := range s.Then {
+				if len(d.InsertionPoint) <= len(s.InsertionPoint) {
+					continue
+				}
+				rel := append([]string{}, d.InsertionPoint[len(s.InsertionPoint):]...)
+				for _, call := range f.ByURL[url].Calls() {
+					if call.Query != s.QueryString {
+						continue
+					}
+					id := "root"
+					if idv, ok := call.Variables["id"]; ok {
+						id = fmt.Sprint(idv)
+					}
+					out = append(out, joinSite{url, id, rel})
+				}
+			}
+		}
+	}
+	walk(plans[0].RootStep.Then)
+	sort.Slice(out, func(a, b int) bool {
+		return out[a].svc+out[a].id+strings.Join(out[a].path, "/") < out[b].svc+out[b].id+strings.Join(out[b].path, "/")
+	})
+	return out
+}
+
 func (c07) Cases(tier string) int {
 	switch tier {
 	case "thorough":
@@ -105,6 +150,10 @@ var c07Corpus = []corpusCase{
 	{"D24-wrong-shape-dependent", FedInput{Spec: FixedFed(), StoreSeed: 5, Query: `{ me { firstName favorite { url likes } } }`, Faults: []FaultSpec{{Service: "B", MatchID: "u1", Kind: "wrong-shape"}}}, "index panic before the repair"},
 	{"D36-errors-with-partial-data", FedInput{Spec: FixedFed(), StoreSeed: 5, Query: `{ allUsers { firstName lastName } }`, Faults: []FaultSpec{{Service: "A", MatchID: "root", Kind: "gqlerrors+data"}}}, ""},
 	{"D59-node-parent-empty-payload", FedInput{Spec: FixedFed(), StoreSeed: 5, Query: `query($a: ID!) { node(id: $a) { id ... on User { lastName } } }`, Vars: map[string]interface{}{"a": "u1"}, Faults: []FaultSpec{{Service: "B", MatchID: "u1", Kind: "empty"}}}, "an answer without the node key under a Node parent was swallowed by the first version of the D25 repair"},
+	{"KF-join-id-missing", FedInput{Spec: FixedFed(), StoreSeed: 5, Query: `{ allUsers { firstName lastName } }`, Faults: []FaultSpec{{Service: "A", MatchID: "root", Kind: "join-drop-id", Path: []string{"allUsers"}}}}, "KF"},
+	{"join-list-for-object", FedInput{Spec: FixedFed(), StoreSeed: 5, Query: `{ me { firstName lastName } }`, Faults: []FaultSpec{{Service: "A", MatchID: "root", Kind: "join-retype", Path: []string{"me"}}}}, "the join object arrives wrapped in a list, without id: reported, and Execute returns"},
+	{"join-object-for-list", FedInput{Spec: FixedFed(), StoreSeed: 5, Query: `{ allUsers { id firstName lastName } }`, Faults: []FaultSpec{{Service: "A", MatchID: "root", Kind: "join-retype", Path: []string{"allUsers"}}}}, "an object where the list of join objects belongs"},
+	{"join-scalar-entry", FedInput{Spec: FixedFed(), StoreSeed: 5, Query: `{ allUsers { id firstName lastName } }`, Faults: []FaultSpec{{Service: "A", MatchID: "root", Kind: "join-scalar", Path: []string{"allUsers"}}}}, "a scalar entry in the list of join objects"},
 	{"KF-root-wrong-shape", FedInput{Spec: FixedFed(), StoreSeed: 5, Query: `{ me { firstName } }`, Faults: []FaultSpec{{Service: "A", MatchID: "root", Kind: "wrong-shape"}}}, "KF"},
 	{"KF-root-empty", FedInput{Spec: FixedFed(), StoreSeed: 5, Query: `{ me { firstName } }`, Faults: []FaultSpec{{Service: "A", MatchID: "root", Kind: "empty"}}}, "KF"},
 }
@@ -175,9 +224,16 @@ func (c07) Run(c *Ctx, i int) CaseResult {
 	}
 	// choose the assignment: i mod … enumerates singles and pairs first, then random subsets
 	var faults []FaultSpec
-	mode := i % 4
+	mode := i % 5
 	pick := func() callKey { return calls[r.Intn(len(calls))] }
+	joinMode := false
 	switch mode {
+	case 4: // an otherwise correct answer, malformed exactly where a dependent step joins
+		if js := joinSites(ref.Fed, ref.Out.Plans); len(js) > 0 {
+			j := js[r.Intn(len(js))]
+			faults = []FaultSpec{{Service: j.svc, MatchID: j.id, Kind: []string{"join-retype", "join-scalar"}[(i/5)%2], Path: j.path}}
+			joinMode = true
+		}
 	case 0: // one call, one kind (cycled)
 		k := pick()
 		faults = []FaultSpec{{Service: k.svc, MatchID: k.id, Kind: faultKinds[(i/4)%len(faultKinds)]}}
@@ -206,7 +262,20 @@ func (c07) Run(c *Ctx, i int) CaseResult {
 		}
 	}
 	in.Faults = uniq
+	if corpus {
+		for _, f := range uniq {
+			if strings.HasPrefix(f.Kind, "join-") {
+				joinMode = true
+			}
+		}
+	}
 	class := "unclassified"
+	for _, f := range uniq {
+		if f.Kind == "join-drop-id" {
+			// an object without the join id is skipped, not reported (known finding); only the corpus goes there
+			class = "join-id-missing"
+		}
+	}
 	if shapeFaultAtRoot(uniq) {
 		// root payloads are not validated against the selection (known finding): the random stream stays out
 		class = "malformed-root-payload"
@@ -292,6 +361,10 @@ func (c07) Run(c *Ctx, i int) CaseResult {
 	}
 	if shapes > 0 && injectedErrs == 0 && o.Err == nil {
 		bad("L0.errors", fmt.Sprintf("%d calls were answered with a null or malformed payload and no error is reported", shapes), obs)
+	}
+	if joinMode {
+		// everything the malformed call delivered lies at or beneath the failed call: only the report is checked
+		return res
 	}
 	// data: nothing wrong, and normally answered calls are intact
 	if d := subvalue(interface{}(o.Data), normalise(fc.Want), ""); d != "" {
